@@ -132,3 +132,37 @@ pub open spec fn array_items_typed(state: &State, items: Seq<LiftExpr>, at: Ty) 
     forall|i: int| 0 <= i < items.len() && state.contains_closure(lift_ty(#[trigger] items[i])) ==> (at matches Ty::TArray { elem, .. } && *elem == lift_ty(items[i]))
 }
 
+
+// ---- a variable use (fragment lift_var): the type comes from the innermost scope entry, which records what the lifting made of the binder ----
+pub open spec fn var_ty_ok(scope: &Scope, state: &State, name: Seq<char>, own: Ty, t: Ty) -> bool {
+    match scope.entry_of(name) {
+        Some(e) => match e.closure_struct {
+            Some(s) => t matches Ty::TStruct { name: sn } && sn@ == s@,
+            None => t == e.ty,
+        },
+        None => match state.func_ty(name) { Some(ft) => t == ft, None => t == own },
+    }
+}
+
+// ---- the per-function tail of lift::lambda_lift (fragment lift_fn_ret): the emitted function and the type recorded for its callers agree ----
+impl State {
+    #[verifier::external_body]
+    pub fn insert_func_ty(&mut self, name: String, ty: Ty)                                             // state.liftenv.insert_func(name, ty)
+        ensures final(self).func_ty(name@) == Some(ty), forall|n: Seq<char>| n != name@ ==> final(self).func_ty(n) == old(self).func_ty(n),
+                forall|t: Ty| final(self).contains_closure(t) == old(self).contains_closure(t), forall|t: Ty| final(self).closure_of(t) == old(self).closure_of(t),
+    { unimplemented!() }
+}
+impl VClone for Vec<(String, Ty)> { #[verifier::external_body] fn vclone(&self) -> (r: Self) { unimplemented!() } }
+// the result type a lifted function gets: the lifted body's type when that differs from the declared one and holds a closure environment
+// (a function RETURNING a closure returns the environment struct), else the declared type
+pub open spec fn lifted_ret(state: &State, declared: Ty, body_ty: Ty) -> Ty {
+    if body_ty != declared && state.contains_closure(body_ty) { body_ty } else { declared }
+}
+pub open spec fn fn_emitted_ok(st0: &State, st1: &State, name: String, params: Vec<(String, Ty)>, declared: Ty, body: LiftExpr, out0: Seq<LiftFn>, out1: Seq<LiftFn>) -> bool {
+    out1.len() == out0.len() + 1 && out1.subrange(0, out0.len() as int) =~= out0
+    && ({ let g = out1[out0.len() as int];
+          g.name == name && g.params == params && g.body == body && g.ret_ty == lifted_ret(st0, declared, lift_ty(body))
+          // callers read the function's type from the environment: it is the type of the function as emitted
+          && (st1.func_ty(name@) matches Some(ft) && (ft matches Ty::TFunc { params: ps, ret_ty }
+              && *ret_ty == g.ret_ty && ps@.len() == params@.len() && forall|i: int| 0 <= i < ps@.len() ==> #[trigger] ps@[i] == params@[i].1)) })
+}
